@@ -28,6 +28,8 @@ LEVEL = 'exploration'
 BUDGET = {'quick': 75, 'thorough': 900}
 # deterministic sub-checks repeated in a `python -O` child (core.optimized_child)
 OPT_SUBS = ('cuts', 'engine/direct')
+# documented call interface the generated calls rely on (vcheck/callstyle.py)
+INTERFACE = [('oslo_utils.imageutils.format_inspector', None)]
 RULE = ('engine: every chunking (2^(n-1) compositions, plus empty chunks) of '
         'position-coded streams up to length n for every region offset/'
         'length/min_length and end-region size, also through a FileInspector '
@@ -541,7 +543,8 @@ def check_inspectors(col, case, sub='inspectors', names=None, route=True):
                                               'polyglot', 'traits'))
     for name in names:
         route_hit = routed(name, data) if route else None
-        v_ref, _i, f_ref = imgdrive.drive(name, data, REF, fidelity=True)
+        v_ref, _i, f_ref = imgdrive.drive(name, data, REF, fidelity=True,
+                                           kind='bytes')
         v_got, _i, f_got = imgdrive.drive(name, data, sched, queries=qset,
                                           fidelity=True)
         if route_hit:
@@ -624,7 +627,9 @@ def check_wrapper(col, case, sub='wrapper'):
             col.known(sub, routed(f, data))
     # reference: 512-byte reads, no queries in between; the generated run
     # may poll format/formats after every read (wsample)
-    ref = imgdrive.drive_wrapper(data, REF, 'read', allowed=allowed)
+    imgdrive.tracing_for((core.h64(data), repr(sched), 'w'))
+    ref = imgdrive.drive_wrapper(data, REF, 'read', allowed=allowed,
+                                 kind='bytes')
     ws = bool(case.get('wsample'))
     outs = {'read': imgdrive.drive_wrapper(data, sched, 'read',
                                            allowed=allowed, sample=ws),
@@ -728,6 +733,34 @@ def cuts_family(col, fmt, params):
     col.exhaustive.setdefault(sub, True)
 
 
+def byte_cuts_family(col, fmt, params):
+    """Deterministic: every byte of the structured part of one small image
+    (the first 96 bytes and every byte of a documented header field,
+    imggen.FIELDS) is damaged in turn (inverted, and zeroed), and the damaged
+    image is cut at every position within 10 bytes of the damage.  Whatever
+    an inspector concludes from a damaged field - including safety checks
+    added later - it has to conclude under every cut."""
+    from vcheck import imggen
+    sub = 'bytecuts'
+    img = imggen.build(fmt, params)
+    base = img.data
+    n = len(base)
+    pos = set(range(0, min(n, 96)))
+    for off, ln, _e in imggen.FIELDS.get(fmt, ()):
+        pos.update(range(off, min(n, off + ln)))
+    for p in sorted(pos):
+        for val in (base[p] ^ 0xFF, 0):
+            if val == base[p]:
+                continue
+            content = {'base': [fmt, params], 'kind': 'mutated',
+                       'edits': [[p, '%02x' % val]]}
+            for c in range(max(1, p - 10), min(n - 1, p + 10) + 1):
+                check_inspectors(col, {'content': content,
+                                       'schedule': chunking.from_cuts(n, [c]),
+                                       'queries': None}, sub, names=[fmt])
+    col.exhaustive.setdefault(sub, True)
+
+
 CUTS_IMAGES = (
     ('qcow2', dict(length=1024)), ('qcow2', dict(version=2, length=600)),
     ('vhd', dict(length=700)), ('vdi', dict(length=700)),
@@ -735,6 +768,7 @@ CUTS_IMAGES = (
     ('luks', dict(payload_offset=2, payload=100)),
     ('vmdk', dict()), ('vmdk', dict(footer=True)),
     ('vmdk', dict(footer=True, desc_num=2, grain_data=100)),
+    ('vmdk', dict(exact_fill=True, final_newline=False, type_last=True)),
     ('iso', dict(tail=100)), ('vhdx', dict()),
     ('vhdx', dict(meta_before=3, region_before=2, item_offset=65544)),
 )
@@ -743,6 +777,11 @@ CUTS_IMAGES = (
 # --------------------------------------------------------------------- tasks
 
 SMALL = ('raw', 'qcow2', 'vhd', 'vmdk', 'vdi', 'qed', 'gpt', 'luks')
+
+
+def imggen_len(fmt, params):
+    from vcheck import imggen
+    return imggen.build(fmt, params).data
 
 
 def tasks(tier, seed):
@@ -761,6 +800,9 @@ def tasks(tier, seed):
                                 lb=lb, lc=lc))
     for fmt, params in CUTS_IMAGES:
         out.append(Task('cuts', cuts_family, fmt=fmt, params=params))
+        if len(imggen_len(fmt, params)) <= 4096:
+            out.append(Task('bytecuts', byte_cuts_family, fmt=fmt,
+                            params=params))
     if tier == 'quick':
         plan = [(SMALL, True, 70000, 400, 5), (('iso',), True, 40000, 150, 2),
                 (('vhdx',), False, 700 * KI, 120, 5)]
